@@ -219,10 +219,44 @@ fn worker(a: &Args) {
     let mut seen = BTreeSet::new();
     let time_cap = a.u64("time-cap", if thorough { 3000 } else { 240 });
     let known = minimise::load_known_findings();
+    // Watchdog: one simulated run takes microseconds to milliseconds.  A run that makes no progress for a long stretch of wall
+    // time has blocked the operating-system thread outside the modelled primitives (for example in a foreign executor's
+    // park): the simulator cannot see or schedule that, so the process reports the case and gives up.
+    let beat = std::sync::Arc::new(std::sync::atomic::AtomicU64::new(0));
+    let current = std::sync::Arc::new(std::sync::Mutex::new((String::new(), 0u64)));
+    {
+        let (beat, current) = (beat.clone(), current.clone());
+        let limit = a.u64("hang-secs", 60);
+        std::thread::spawn(move || {
+            let mut last = u64::MAX;
+            let mut since = Instant::now();
+            loop {
+                std::thread::sleep(std::time::Duration::from_millis(500));
+                let b = beat.load(std::sync::atomic::Ordering::Relaxed);
+                if b != last {
+                    last = b;
+                    since = Instant::now();
+                } else if since.elapsed().as_secs() >= limit {
+                    let (f, i) = current.lock().map(|g| g.clone()).unwrap_or_default();
+                    println!("DESIM-HUNG {} {}", f, i);
+                    use std::io::Write;
+                    std::io::stdout().flush().ok();
+                    std::process::exit(97);
+                }
+            }
+        });
+    }
     'outer: for fam in &fams {
         let total = ((if thorough { fam.thorough_runs } else { fam.quick_runs }) as f64 * scale) as u64;
         let mut i = wi;
         while i < total {
+            beat.fetch_add(1, std::sync::atomic::Ordering::Relaxed);
+            if let Ok(mut g) = current.lock() {
+                if g.0 != fam.name {
+                    g.0 = fam.name.to_string();
+                }
+                g.1 = i;
+            }
             if (i / wn) % 512 == 0 && t0.elapsed().as_secs() > time_cap {
                 s.harness_errors.push(format!("time cap of {} s reached in family {}", time_cap, fam.name));
                 break 'outer;
@@ -336,6 +370,18 @@ fn check(a: &Args) -> i32 {
     let verif_root = a.get("verif-root").unwrap_or("/verif").to_string();
     let n = a.u64("workers", 16);
     let t0 = Instant::now();
+    // the check as a whole is bounded too (the minimiser re-runs cases in this process)
+    {
+        let limit = a.u64("wall-limit", if tier == "thorough" { 3 * 3600 } else { 1800 });
+        let prop = prop.clone();
+        std::thread::spawn(move || {
+            std::thread::sleep(std::time::Duration::from_secs(limit));
+            println!("HARNESS-ERROR the check of {} exceeded its wall-clock limit of {} s", prop, limit);
+            use std::io::Write;
+            std::io::stdout().flush().ok();
+            std::process::exit(2);
+        });
+    }
     let exe = std::env::current_exe().unwrap();
     let mut kids = vec![];
     for i in 0..n {
@@ -353,6 +399,7 @@ fn check(a: &Args) -> i32 {
     let mut sums: Vec<WorkerSummary> = vec![];
     let mut crashed = vec![];
     let mut crashed_workers: Vec<usize> = vec![];
+    let mut hung_cases: Vec<String> = vec![];
     for (i, k) in kids.into_iter().enumerate() {
         let o = k.wait_with_output().expect("wait");
         let text = String::from_utf8_lossy(&o.stdout).to_string();
@@ -362,8 +409,12 @@ fn check(a: &Args) -> i32 {
                 Err(e) => crashed.push(format!("worker {}: bad summary: {}", i, e)),
             },
             None => {
-                crashed.push(format!("worker {} died: {:?}", i, o.status));
-                crashed_workers.push(i);
+                if let Some(h) = text.lines().find_map(|l| l.strip_prefix("DESIM-HUNG ")) {
+                    hung_cases.push(h.to_string());
+                } else {
+                    crashed.push(format!("worker {} died: {:?}", i, o.status));
+                    crashed_workers.push(i);
+                }
             }
         }
     }
@@ -449,6 +500,17 @@ fn check(a: &Args) -> i32 {
     }
     // A worker process that dies (signal, abort) while running the real code is itself a memory-safety finding:
     // the slice is deterministic, so re-running it is the replay.
+    if !hung_cases.is_empty() {
+        let dir = format!("{}/replays/{}", verif_root, prop);
+        std::fs::create_dir_all(&dir).ok();
+        let mut parts = hung_cases[0].split_whitespace();
+        let (fam, idx) = (parts.next().unwrap_or("").to_string(), parts.next().and_then(|x| x.parse::<u64>().ok()).unwrap_or(0));
+        let path = format!("{}/blocked-{}-{}.json", dir, fam, idx);
+        std::fs::write(&path, serde_json::to_string_pretty(&json!({"property": prop, "hang_case": {"family": fam, "index": idx, "seed": seed, "tier": tier}, "what": "a simulated run stopped making progress for a minute of wall time: a thread of the code under test blocked the operating-system thread outside the modelled primitives (std Mutex/Condvar/park/channel), which no caller of the library can recover from; the call that was in progress never returns"})).unwrap()).ok();
+        println!("VIOLATION property={} replay={}", prop, path);
+        println!("  {} [blocked_outside_the_simulation]: family {} case {}: a run never finished: a thread blocked outside the modelled primitives (for example in a nested executor's own park); {} simulator processes gave up", prop, fam, idx, hung_cases.len());
+        exit = 1;
+    }
     if prop == "C14" && !crashed_workers.is_empty() && exit == 0 {
         let dir = format!("{}/replays/{}", verif_root, prop);
         std::fs::create_dir_all(&dir).ok();
@@ -582,6 +644,32 @@ fn replay(a: &Args) -> i32 {
             }
             println!("NOT REPRODUCED: the slice ran to its end");
             return 2;
+        }
+    }
+    if let Ok(v) = serde_json::from_str::<serde_json::Value>(&text) {
+        if let Some(c) = v.get("hang_case") {
+            let exe = std::env::current_exe().unwrap();
+            let prop = v["property"].as_str().unwrap_or("C01").to_string();
+            let mut child = std::process::Command::new(exe)
+                .arg("case").arg("--prop").arg(&prop)
+                .arg("--family").arg(c["family"].as_str().unwrap_or(""))
+                .arg("--index").arg(c["index"].as_u64().unwrap_or(0).to_string())
+                .arg("--seed").arg(c["seed"].as_u64().unwrap_or(DEFAULT_SEED).to_string())
+                .stdout(std::process::Stdio::null()).spawn().expect("run case");
+            let t0 = Instant::now();
+            loop {
+                if let Ok(Some(_)) = child.try_wait() {
+                    println!("NOT REPRODUCED: the case ran to its end");
+                    return 2;
+                }
+                if t0.elapsed().as_secs() >= 30 {
+                    child.kill().ok();
+                    println!("VIOLATION property={} replay={}", prop, path);
+                    println!("reproduced: the case is still blocked after 30 s of wall time");
+                    return 1;
+                }
+                std::thread::sleep(std::time::Duration::from_millis(200));
+            }
         }
     }
     let rf: ReplayFile = serde_json::from_str(&text).expect("parse replay");
